@@ -8,3 +8,79 @@ fn reference_tables() {
         Err(e) => panic!("{e}"),
     }
 }
+
+/// No NaN, values in [0,1], cdf+sf = 1, monotone in x -- on a grid that includes
+/// the extreme floats, for every parameter set of the reference table.
+#[test]
+fn robustness_continuous() {
+    use vorac::json::{self, Value};
+    use vorac::Cont;
+    let v = json::parse(vorac::REFS_CONT).unwrap();
+    let mut laws: Vec<Cont> = Vec::new();
+    let mut xs_of: Vec<Vec<f64>> = Vec::new();
+    for rec in v.as_array().unwrap() {
+        let fam = rec.get("family").unwrap().as_str().unwrap();
+        let num = |v: &Value| -> f64 {
+            match v {
+                Value::Num(s) | Value::Str(s) => match s.as_str() {
+                    "inf" => f64::INFINITY,
+                    "-inf" => f64::NEG_INFINITY,
+                    _ => s.parse().unwrap(),
+                },
+                _ => panic!(),
+            }
+        };
+        let p: Vec<f64> = rec.get("params").unwrap().as_array().unwrap().iter().map(num).collect();
+        let law = Cont::from_name(fam, &p).unwrap();
+        let x = num(rec.get("x").unwrap());
+        if laws.last() != Some(&law) {
+            laws.push(law);
+            xs_of.push(Vec::new());
+        }
+        xs_of.last_mut().unwrap().push(x);
+    }
+    let mut bad = Vec::new();
+    for (law, rx) in laws.iter().zip(&xs_of) {
+        let mut xs = rx.clone();
+        for m in [0.0, 5e-324, f64::MIN_POSITIVE, 1e-300, 1e-100, 1e-30, 1e-10, 1e-3, 0.5, 1.0, 2.0, 10.0, 38.0, 40.0, 1e3, 1e10, 1e30, 1e100, 1e300, f64::MAX, f64::INFINITY] {
+            xs.push(m);
+            xs.push(-m);
+        }
+        // points between the reference abscissae
+        for w in rx.windows(2) {
+            xs.push(0.5 * w[0] + 0.5 * w[1]);
+        }
+        xs.sort_by(|a, b| a.partial_cmp(b).unwrap());
+        let (mut pc, mut ps) = (0.0f64, 1.0f64);
+        for &x in &xs {
+            let (c, s) = law.cdf_sf(x);
+            let pdf = law.pdf(x);
+            let ok = c >= 0.0 && c <= 1.0 && s >= 0.0 && s <= 1.0 && (c + s - 1.0).abs() < 1e-9 && !(pdf < 0.0) && !pdf.is_nan();
+            // monotone up to rounding noise of the two branches
+            let mono = c >= pc - 1e-13 - 1e-9 * pc && s <= ps + 1e-13 + 1e-9 * ps;
+            if !(ok && mono) && bad.len() < 30 {
+                bad.push(format!("{law:?} x={x:e}: cdf={c:e} sf={s:e} pdf={pdf:e} (prev cdf {pc:e} sf {ps:e})"));
+            }
+            pc = c;
+            ps = s;
+        }
+        let (lo, hi) = law.support();
+        assert_eq!(law.cdf(f64::INFINITY), 1.0);
+        assert_eq!(law.sf(f64::NEG_INFINITY), 1.0);
+        if lo.is_finite() {
+            assert_eq!(law.cdf(lo - lo.abs() * 1e-3 - 1e-300), 0.0, "{law:?}");
+        }
+        if hi.is_finite() {
+            assert_eq!(law.sf(hi), 0.0, "{law:?}");
+        }
+        for q in [1e-12, 1e-6, 0.01, 0.3, 0.5, 0.9, 1.0 - 1e-9] {
+            let x = law.quantile(q);
+            let (c, s) = law.cdf_sf(x);
+            let okq = if q <= 0.5 { c >= q * (1.0 - 1e-9) } else { s <= (1.0 - q) * (1.0 + 1e-9) };
+            if !okq && bad.len() < 30 {
+                bad.push(format!("{law:?} quantile({q}) = {x:e}: cdf={c:e} sf={s:e}"));
+            }
+        }
+    }
+    assert!(bad.is_empty(), "{}", bad.join("\n"));
+}
